@@ -177,13 +177,17 @@ func (cpu *CPU) Run(ctx context.Context) error {
 	defer cancel()
 	go func() {
 		<-ctx2.Done()
+		vhook("watcher-woken")
 		ctxErr = ctx.Err()
+		vhook("watcher-wrote")
 		atomic.StoreInt32(&canceled, 1)
+		vhook("watcher-stored")
 	}()
 
 	cpu.HALT = false
 	for {
 		if atomic.LoadInt32(&canceled) != 0 {
+			vhook("runner-saw-cancel")
 			return ctxErr
 		}
 		cpu.Step()
